@@ -40,6 +40,13 @@ class PyCaseEval:
             return e.value
         if isinstance(e, ast.Name):
             return self.env.get(e.id, Ellipsis)
+        if isinstance(e, ast.Attribute) and isinstance(e.value, ast.Name) and e.value.id in ("blas", "lapack"):
+            return ("fn", "%s.%s" % (e.value.id, e.attr))       # a routine selected once and called through a local name
+        if isinstance(e, ast.IfExp):
+            t_ = self.ev(e.test)
+            if t_ is Ellipsis:
+                return Ellipsis
+            return self.ev(e.body if t_ else e.orelse)
         if isinstance(e, ast.Compare) and len(e.ops) == 1:
             l, r = self.ev(e.left), self.ev(e.comparators[0])
             if l is Ellipsis or r is Ellipsis:
@@ -101,7 +108,9 @@ class PyCaseEval:
         for c in ast.walk(s):
             if isinstance(c, ast.Call):
                 nm = pf.call_name(c)
-                if nm and nm.split(".")[0] in ("blas", "lapack") and nm.split(".")[1] in C_FLAG_POS:
+                if isinstance(c.func, ast.Name) and isinstance(self.env.get(c.func.id), tuple) and self.env[c.func.id][0] == "fn":
+                    nm = self.env[c.func.id][1]
+                if nm and "." in nm and nm.split(".")[0] in ("blas", "lapack") and nm.split(".")[1] in C_FLAG_POS:
                     r = nm.split(".")[1]
                     fl = {}
                     for k in c.keywords:
